@@ -1,6 +1,10 @@
 package zzvrt
 
-import "io"
+import (
+	"io"
+	"net"
+	"time"
+)
 
 // MemFile is an in-memory file used in place of a storage file: ReadAt serves
 // Data, WriteAt stores into Data and logs the call.
@@ -49,3 +53,79 @@ func (f *MemFile) WriteAt(p []byte, off int64) (int, error) {
 }
 
 func (f *MemFile) Close() error { f.Closed++; return nil }
+
+// ---- model timers (engine only) ----
+
+// TimerChan returns the channel of the k-th time.Timer/Ticker/After created so
+// far, so the harness can fire it by sending a value. Natively nil.
+func TimerChan(k int) chan time.Time { return nil }
+
+// TimerResets is the number of durations recorded so far (one per timer
+// creation and per Reset).
+func TimerResets() int { return 0 }
+
+// TimerReset returns the k-th recorded duration in nanoseconds (-1 if none).
+func TimerReset(k int) int64 { return -1 }
+
+// ---- fake connection ----
+
+type Addr struct{}
+
+func (Addr) Network() string { return "tcp" }
+func (Addr) String() string  { return "zz:1" }
+
+// Conn is an in-memory net.Conn: Write records what is written (one entry per
+// call) and signals Written; Read serves In, fragmented as directed by Split.
+type Conn struct {
+	Writes  [][]byte
+	Written chan struct{}
+	Closed  int
+	In      []byte
+	Pos     int
+	// Split: bytes returned by the first Read (0 = everything available);
+	// OneByOne: every Read returns a single byte.
+	Split    int
+	OneByOne bool
+	reads    int
+	// Remote is the peer address (default 1.2.3.4:5).
+	Remote *net.TCPAddr
+}
+
+func (c *Conn) Write(b []byte) (int, error) {
+	c.Writes = append(c.Writes, append([]byte(nil), b...))
+	if c.Written != nil {
+		c.Written <- struct{}{}
+	}
+	return len(b), nil
+}
+
+func (c *Conn) Read(p []byte) (int, error) {
+	if c.Pos >= len(c.In) {
+		return 0, io.EOF
+	}
+	n := len(c.In) - c.Pos
+	if n > len(p) {
+		n = len(p)
+	}
+	if c.OneByOne {
+		n = 1
+	} else if c.reads == 0 && c.Split > 0 && c.Split < n {
+		n = c.Split
+	}
+	c.reads++
+	copy(p, c.In[c.Pos:c.Pos+n])
+	c.Pos += n
+	return n, nil
+}
+
+func (c *Conn) Close() error                       { c.Closed++; return nil }
+func (c *Conn) LocalAddr() net.Addr                { return Addr{} }
+func (c *Conn) RemoteAddr() net.Addr {
+	if c.Remote == nil {
+		c.Remote = &net.TCPAddr{IP: net.IP{1, 2, 3, 4}, Port: 5}
+	}
+	return c.Remote
+}
+func (c *Conn) SetDeadline(t time.Time) error      { return nil }
+func (c *Conn) SetReadDeadline(t time.Time) error  { return nil }
+func (c *Conn) SetWriteDeadline(t time.Time) error { return nil }
